@@ -4,6 +4,9 @@
 //! (long chords, exactly tangent ones, partially inside, outside) and closed polylines against circles; all ordered
 //! triples of the 12 integer points of the radius-5 circle (3 centres); arcs over a grid of centres, radii, start
 //! angles and signed sweeps up to +-2pi. Every returned coordinate must be finite.
+//! Cached boxes of circles: a circle obtained from EVERY public producer (new, from_point, clone, from_3_points,
+//! fitting_circle with initial guesses different from the answer, ransac, the `circle` field of every arc constructor)
+//! must carry the box [cx - r, cx + r] x [cy - r, cy + r] of the centre and radius it reports.
 use super::Report;
 use crate::common::Intersection;
 use crate::geom2::{Arc2, Circle2, Curve2, HasBounds2, Point2, Segment2};
